@@ -28,11 +28,11 @@ where
     D: DiffHook,
     Old::Output: Hash + Eq + Ord,
     New::Output: PartialEq<Old::Output> + Hash + Eq + Ord,
-/*@*/     requires diff_pre(*vstd::prelude::old(d), old, old_range, new, new_range, alg_lvl(None)),
+/*@*/     requires diff_pre(*vstd::prelude::old(d), old, old_range, new, new_range, lvl_of(alg, None)),
 /*@*/         alg == Algorithm::Lcs ==> ((old_range.end - old_range.start) <= u32::MAX || (new_range.end - new_range.start) <= u32::MAX),   // lcs table cells are u32
 /*@*/     ensures
 /*@*/         err_post(*vstd::prelude::old(d), *final(d), res),
-/*@*/         seg_post(*vstd::prelude::old(d), *final(d), old, old_range, new, new_range, alg_lvl(None), alg != Algorithm::Patience, fin::<D>(), res.is_ok()),
+/*@*/         seg_post(*vstd::prelude::old(d), *final(d), old, old_range, new, new_range, lvl_of(alg, None), alg != Algorithm::Patience, fin::<D>(), res.is_ok()),
 {
     diff_deadline(alg, d, old, old_range, new, new_range, None)
 }
@@ -54,11 +54,11 @@ where
     D: DiffHook,
     Old::Output: Hash + Eq + Ord,
     New::Output: PartialEq<Old::Output> + Hash + Eq + Ord,
-/*@*/     requires diff_pre(*vstd::prelude::old(d), old, old_range, new, new_range, alg_lvl(deadline)),
+/*@*/     requires diff_pre(*vstd::prelude::old(d), old, old_range, new, new_range, lvl_of(alg, deadline)),
 /*@*/         alg == Algorithm::Lcs ==> ((old_range.end - old_range.start) <= u32::MAX || (new_range.end - new_range.start) <= u32::MAX),   // lcs table cells are u32
 /*@*/     ensures
 /*@*/         err_post(*vstd::prelude::old(d), *final(d), res),
-/*@*/         seg_post(*vstd::prelude::old(d), *final(d), old, old_range, new, new_range, alg_lvl(deadline), deadline is None && alg != Algorithm::Patience, fin::<D>(), res.is_ok()),
+/*@*/         seg_post(*vstd::prelude::old(d), *final(d), old, old_range, new, new_range, lvl_of(alg, deadline), deadline is None && alg != Algorithm::Patience, fin::<D>(), res.is_ok()),
 {
     match alg {
         Algorithm::Myers => myers::diff_deadline(d, old, old_range, new, new_range, deadline),
@@ -73,11 +73,11 @@ pub fn diff_slices<D, T>(alg: Algorithm, d: &mut D, old: &[T], new: &[T]) -> (re
 where
     D: DiffHook,
     T: Eq + Hash + Ord,
-/*@*/     requires diff_pre(*vstd::prelude::old(d), old, 0..old.len(), new, 0..new.len(), alg_lvl(None)),
+/*@*/     requires diff_pre(*vstd::prelude::old(d), old, 0..old.len(), new, 0..new.len(), lvl_of(alg, None)),
 /*@*/         alg == Algorithm::Lcs ==> (old.len() <= u32::MAX || new.len() <= u32::MAX),
 /*@*/     ensures
 /*@*/         err_post(*vstd::prelude::old(d), *final(d), res),
-/*@*/         seg_post(*vstd::prelude::old(d), *final(d), old, 0..old.len(), new, 0..new.len(), alg_lvl(None), alg != Algorithm::Patience, fin::<D>(), res.is_ok()),
+/*@*/         seg_post(*vstd::prelude::old(d), *final(d), old, 0..old.len(), new, 0..new.len(), lvl_of(alg, None), alg != Algorithm::Patience, fin::<D>(), res.is_ok()),
 {
     diff(alg, d, old, 0..old.len(), new, 0..new.len())
 }
@@ -94,11 +94,11 @@ pub fn diff_slices_deadline<D, T>(
 where
     D: DiffHook,
     T: Eq + Hash + Ord,
-/*@*/     requires diff_pre(*vstd::prelude::old(d), old, 0..old.len(), new, 0..new.len(), alg_lvl(deadline)),
+/*@*/     requires diff_pre(*vstd::prelude::old(d), old, 0..old.len(), new, 0..new.len(), lvl_of(alg, deadline)),
 /*@*/         alg == Algorithm::Lcs ==> (old.len() <= u32::MAX || new.len() <= u32::MAX),
 /*@*/     ensures
 /*@*/         err_post(*vstd::prelude::old(d), *final(d), res),
-/*@*/         seg_post(*vstd::prelude::old(d), *final(d), old, 0..old.len(), new, 0..new.len(), alg_lvl(deadline), deadline is None && alg != Algorithm::Patience, fin::<D>(), res.is_ok()),
+/*@*/         seg_post(*vstd::prelude::old(d), *final(d), old, 0..old.len(), new, 0..new.len(), lvl_of(alg, deadline), deadline is None && alg != Algorithm::Patience, fin::<D>(), res.is_ok()),
 {
     diff_deadline(alg, d, old, 0..old.len(), new, 0..new.len(), deadline)
 }
